@@ -194,7 +194,11 @@ class Rig:
                 if ci == 0:
                     raise ValueError("lock faults only on short-timeout connections")
                 blocker = sqlite3.connect(self.path, timeout=0.02)
-                blocker.execute("BEGIN IMMEDIATE")
+                try:
+                    blocker.execute("BEGIN IMMEDIATE")
+                except sqlite3.OperationalError:      # somebody already holds the write lock: that will do
+                    blocker.close()
+                    blocker = None
             elif fault[0] == "evil":
                 traces.insert(fault[1], build_trace(["evil"]))
             try:
